@@ -243,6 +243,8 @@ func genC19(g *G) {
 					if p > 0 {
 						w = g.R.Uint64() % p
 					}
+				case p == 0:
+					w = g.R.Uint64()
 				default:
 					w = p + g.R.Uint64()%(math.MaxUint64-p+1)
 				}
